@@ -255,6 +255,7 @@ pub trait QueueApi: Sized + 'static {
     fn q_from_iter<T: IntoIterator<Item = (Item, Prio)>>(it: T) -> Self;
     fn q_from_other(o: Self::Other) -> Self;
     fn q_clone(&self) -> Self;
+    fn q_clone_from(&mut self, src: &Self);
 
     // single-element operations
     fn push(&mut self, i: Item, p: Prio) -> Option<Prio>;
@@ -372,6 +373,9 @@ macro_rules! common_methods {
         }
         fn q_clone(&self) -> Self {
             self.clone()
+        }
+        fn q_clone_from(&mut self, src: &Self) {
+            Clone::clone_from(self, src)
         }
         fn push(&mut self, i: Item, p: Prio) -> Option<Prio> {
             $Q::push(self, i, p)
